@@ -930,8 +930,15 @@ def run(ctx):
                                               "broken": ["C17_table"]},
                       detail=f"C17_table fails for {n}: {info[n]['first_bad']}; no differing pair of calls found",
                       kind="unproven", broken=["C17_table"])
+    from ..core import is_known
     for d in ch.dis:
         if d["function"] not in concrete:
+            # an OS-entropy draw observed inside a call that a listed finding already explains (same function, same
+            # arguments: SciPy's ARPACK restarts in spectral_clustering) is that finding seen by the recorder, not a new one
+            as_known = dict(kind="concrete", site=d["function"], failure_class=FAIL, case=d, detail=d["problem"])
+            if "osEntropy" in d["problem"] and is_known(ctx, as_known):
+                ctx.violation(d["function"], FAIL, d, detail=d["problem"])
+                continue
             ctx.violation(d["function"], "translator-mismatch", d, detail=d["problem"], kind="unproven",
                           broken=["translator~implementation"])
     for n in missing:
